@@ -387,6 +387,7 @@ package sql
 //@   ensures failed-start-is-not-held-for-phase-two: global && (c.Conn.res.shouldBeHeld || c.Conn.res.dbType != types.DBTypeUnknown) && called("start#1") && callres("start#1", 0) != nil ==> !c.isConnKept
 //@   at call start#1: assert id-from-xid-and-branch: c.xaBranchXid != nil && c.xaBranchXid.xid == cv.(*tm.ContextVariable).Xid && c.xaBranchXid.branchId == c.Conn.txCtx.BranchID && c.Conn.txCtx.BranchID != 0 && ghost.registers == 1 && ghost.reg_ok
 //@   ensures local-untouched: !global ==> ghost.xa_state == 0 && ghost.registers == 0
+//@   ensures C16/plain-begin-begins-on-the-target: !global && result1 == nil ==> ghost.dtx == 1 && isT(result0, *Tx) && result0.(*Tx).target != nil
 //@   ensures C16/plain-begin-leaves-the-xa-state-of-the-connection-alone: !global ==> c.tx == old(c.tx) && c.xaActive == old(c.xaActive) && c.xaBranchXid == old(c.xaBranchXid) && c.xaResource == old(c.xaResource) && c.isConnKept == old(c.isConnKept)
 //@   ensures never-beyond-active: ghost.xa_state != 3 && ghost.xa_state != 4
 
